@@ -74,6 +74,11 @@ CASES = [
     (GP + 'GraphProcessor.get_graph@imputation-tail', 'break', 'used_values[i] = self._get_inactive_value(des_vars[i])', 'used_values[i] = self._get_inactive_value(des_vars[0])'),
     (SUP + 'SupExistenceMapping.resolve', 'break', "            if src_node.str_context() in src_nodes:\n                sup_tgt_option_node = sup_option_node\n                break", "            if src_node.str_context() in src_nodes:\n                sup_tgt_option_node = sup_option_node"),
     (SUP + 'SupExistenceMapping.resolve', 'break', 'if src_node.str_context() in src_nodes:', 'if str(src_node) in src_nodes:'),
+    (SUP + 'SupSelChoiceOptionMapping.resolve', 'break', 'if len(src_selected_opt_nodes) != 1:', 'if len(src_selected_opt_nodes) > 1:'),
+    (SUP + 'SupSelChoiceOptionMapping.resolve', 'break', 'sup_tgt_option_node = mapping_ctx[list(src_selected_opt_nodes)[0].str_context()]', 'sup_tgt_option_node = mapping_ctx[str(list(src_selected_opt_nodes)[0])]'),
+    (SUP + 'SupSelChoiceOptionMapping.resolve', 'break', 'mapping_ctx = {node.str_context(): sup_node for node, sup_node in mapping.items() if node is not None}', 'mapping_ctx = {str(node): sup_node for node, sup_node in mapping.items() if node is not None}'),
+    (SUP + 'SupSelChoiceOptionMapping.resolve', 'break', "src_dsg.graph, src_originating_node, edge_type=EdgeType.DERIVES)}", "src_dsg.graph, src_originating_node, edge_type=EdgeType.CONNECTS)}"),
+    (SUP + 'SupSelChoiceOptionMapping.resolve', 'keep', "            if None not in mapping:\n                raise SupResolveError(", "            if not (None in mapping):\n                raise SupResolveError("),
     (SUP + 'SupDSG.initialize_choices', 'break', '            if choice_node in mapped_choice_nodes:\n                dup_mapped.append(choice_node)', '            if choice_node not in mapped_choice_nodes:\n                dup_mapped.append(choice_node)'),
     (SUP + 'SupDSG.initialize_choices', 'break', '        if len(unmapped_choice_nodes):', '        if len(unmapped_choice_nodes) > 1:'),
     (GP + 'GraphProcessor._update_comb_fixed_mask', 'break', 'fixed_choices[i_dec] = fixed_idx', 'fixed_choices[i_dv] = fixed_idx'),
